@@ -1,5 +1,5 @@
 /* h_ilu.c — C15: incomplete LU driver ?gsisx never breaks down and X is exactly the preconditioner solve defined by the returned factors.
- * args: n pattern colperm permidx panel relax maxsuper rowblk colblk fill symcols milu droprule rowperm trans dropmode nrhs
+ * args: n pattern colperm permidx panel relax maxsuper rowblk colblk fill symcols milu droprule rowperm trans dropmode nrhs tinymask
  *   milu 0 SILU 1 SMILU_1 2 SMILU_2 3 SMILU_3;  rowperm 0 NOROWPERM 1 LargeDiag_MC64;  trans 0 N 1 T
  *   dropmode 0: defaults (tol 1e-4, fill 10)  1: dropping disabled (NODROP, tol 0)  2: aggressive (tol 0.5, fill 1, rule as given) */
 #include "hcommon.h"
@@ -7,7 +7,9 @@ int main(int argc, char **argv) {
   int n = (int)h_arg(argc, argv, 0, 2); h_pat_t pat = argc > 2 ? argv[2] : "0xf"; int colperm = (int)h_arg(argc, argv, 2, 0), permidx = (int)h_arg(argc, argv, 3, 0);
   h_set_tuning((int)h_arg(argc, argv, 4, 1), (int)h_arg(argc, argv, 5, 1), (int)h_arg(argc, argv, 6, 1), (int)h_arg(argc, argv, 7, 1), (int)h_arg(argc, argv, 8, 1), (int)h_arg(argc, argv, 9, 20));
   unsigned symcols = (unsigned)h_arg(argc, argv, 10, -1); int milu = (int)h_arg(argc, argv, 11, 0), droprule = (int)h_arg(argc, argv, 12, 9), rowperm = (int)h_arg(argc, argv, 13, 0), tcode = (int)h_arg(argc, argv, 14, 0), dropmode = (int)h_arg(argc, argv, 15, 0), nrhs = (int)h_arg(argc, argv, 16, 1);
+  unsigned tinymask = (unsigned)h_arg(argc, argv, 17, 0);   /* bit c: the sub-diagonal entry (c+1, c) -- or, when that is not stored, (c+2, c) -- of a concrete column c is made tiny (2^-40 times its generic value): dropped by the default rule */
   symmat_t S; symmat_build_cols(&S, n, n, pat, "a", symcols); char nm[32];
+  if (tinymask) { int_t k = 0; for (int j = 0; j < n; j++) for (int i = 0; i < n; i++) if (S.D.nz[i][j]) { if (((i == j + 1) || (i == j + 2 && !S.D.nz[j + 1][j])) && ((tinymask >> j) & 1) && !((symcols >> j) & 1)) { S.val[k] = e_scale(S.val[k], (real_t)(1.0 / 1099511627776.0)); S.D.a[i][j] = S.val[k]; } k++; } }
   elem_t v0[NMAX * NMAX]; int_t r0[NMAX * NMAX]; for (int_t k = 0; k < S.nnz; k++) { v0[k] = S.val[k]; r0[k] = S.rowind[k]; }
   elem_t *b = (elem_t *)malloc(sizeof(elem_t) * (n * nrhs + 1)), *b0 = (elem_t *)malloc(sizeof(elem_t) * (n * nrhs + 1)), *x = (elem_t *)malloc(sizeof(elem_t) * (n * nrhs + 1));
   for (int i = 0; i < n * nrhs; i++) { snprintf(nm, sizeof nm, "b%d", i); b[i] = b0[i] = e_sym(nm); x[i] = e_zero(); }
